@@ -221,4 +221,83 @@ def closed : Bool → Prog → Bool
   | l, .brk r => l && closed l r
   | l, .cont r => l && closed l r
 
+
+/-! ### subflow calls: the structured call / return discipline (phase 4)
+
+  `runS` is the structured meaning of `_slide_with_subflows` / `_call_subflow` on a flow whose statements may
+  be `do name`: run the flow's own statements (`exec` / `execFrom`) to the next step statement; if that statement
+  is `do n`, run the body of `n` from its first statement as a *callee*: when the callee runs to its end control
+  returns to the statement after the `do` (same flow, `execFrom … a'`), when it stops at a step statement the
+  caller waits at the `do` and the callee's frame (and those of its own callees, innermost first) is pushed.
+  Frames carry the uid the interpreter hands out (a counter), so that "who waits for whom" is part of the result. -/
+
+/-- the subflow library: name ↦ body -/
+abbrev Lib := List (String × Prog)
+
+/-- a pushed callee frame: it waits at the statement `addr` of `body`; `callee = some u` iff that statement is a
+    `do` whose callee (uid `u`) is itself waiting -/
+structure SFrame where
+  uid : Nat
+  name : String
+  body : Prog
+  addr : Addr
+  callee : Option Nat
+  deriving Repr, DecidableEq, Inhabited
+
+inductive OutS where
+  /-- the flow waits at the statement at `a` (its own step, or a `do` whose callee `callee` waits); `frames` are the
+      pushed callee frames, innermost first; `who` = (uid, flow name, statement) of the innermost waiting flow -/
+  | wait (st : SSt) (ctr : Nat) (a : Addr) (callee : Option Nat) (frames : List SFrame) (who : Nat × String × Step)
+  /-- the flow ran to its end -/
+  | fell (st : SSt) (ctr : Nat)
+  | err | oof | bad
+  deriving Repr, DecidableEq, Inhabited
+
+/-- where a flow is (re)started: `none` = at its first statement, `some a` = after the step statement at `a` -/
+def startPos (p : Prog) : Option Addr → Int
+  | Option.none => 0
+  | some a => ((off p a + 1 : Nat) : Int)
+
+def startOut (f : Nat) (st : SSt) (p : Prog) : Option Addr → Out
+  | Option.none => exec f st p
+  | some a => execFrom f st p a
+
+/-- structured run with calls. `g` bounds the number of calls (like the interpreter's own recursion), `f` is the
+    fuel of the statement-level semantics, `uid`/`name` identify the running flow, `ctr` is the uid counter. -/
+def runS (lib : Lib) (f : Nat) : Nat → Nat → String → SSt → Nat → Prog → Option Addr → OutS
+  | 0, _, _, _, _, _, _ => .oof
+  | g + 1, uid, name, st, ctr, p, start =>
+    match startOut f st p start with
+    | .fell st' => .fell st' ctr
+    | .err => .err
+    | .oof => .oof
+    | .atStep st' a' =>
+      match stepAt p a' with
+      | Option.none => .bad
+      | some (.doFlow n) =>
+        match lib.lookup n with
+        | Option.none => .bad
+        | some q =>
+          match runS lib f g ctr n st' (ctr + 1) q Option.none with
+          | .fell st'' ctr'' => runS lib f g uid name st'' ctr'' p (some a')
+          | .wait st'' ctr'' a2 callee2 frames who =>
+            .wait st'' ctr'' a' (some ctr) (frames ++ [{ uid := ctr, name := n, body := q, addr := a2, callee := callee2 }]) who
+          | o => o
+      | some s => .wait st' ctr a' Option.none [] (uid, name, s)
+    | _ => .bad
+
+/-- the flow state the interpreter keeps for a pushed frame: a frame waiting at a `do` has its head already
+    past the call, is INTERRUPTED and remembers its callee's uid -/
+def SFrame.toFS (fr : SFrame) : FS :=
+  match fr.callee with
+  | Option.none => { uid := fr.uid, flowId := fr.name, head := ((off fr.body fr.addr : Nat) : Int) }
+  | some u => { uid := fr.uid, flowId := fr.name, head := ((off fr.body fr.addr : Nat) : Int) + 1, status := .interrupted, interruptedBy := some u }
+
+/-- `_record_next_step` (modifier 1.0) as a function of the previously recorded step -/
+def recNext (old : Option NextStep) (el : Elem) (uid prio : Nat) : Option NextStep :=
+  let free := match old with
+    | Option.none => true
+    | some n => n.prio < prio * 100
+  if free && isActionable el then some { elem := el, uid := uid, prio := prio * 100 } else old
+
 end NemoVerif.V1Struct
